@@ -119,6 +119,7 @@ pub fn err_code(e: &std::io::Error) -> i32 {
 
 pub const KIND_UNEXPECTED_EOF: i32 = -(std::io::ErrorKind::UnexpectedEof as i32) - 1;
 pub const KIND_WRITE_ZERO: i32 = -(std::io::ErrorKind::WriteZero as i32) - 1;
+pub const KIND_INTERRUPTED: i32 = -(std::io::ErrorKind::Interrupted as i32) - 1;
 pub const KIND_UNSUPPORTED: i32 = -(std::io::ErrorKind::Unsupported as i32) - 1;
 
 /// Objects produced by an operation that the harness has to keep (and later
